@@ -26,6 +26,9 @@ def c14Val (t : String) (s : String) : Option Int :=
   | "m1" => some (mn + step)
   | "M1" => some (mx - step)
   | "M" => some mx
+  -- the infinities of a float type: non-null values beyond the finite extremes
+  | "ni" => some (mn - step)
+  | "pi" => some (mx + step)
   | s => s.toInt?
 
 def c14Vals (t : String) (r : Req) (k : String) : List (Option Int) :=
